@@ -713,6 +713,13 @@ func (db *DB) Sync() error {
 	                    :: of data and then the machine shuts down or the disk failure happens,
 						:: this will result in partial writes. [[This case needs verification]]
 	*/
+	vhook.WaitLock("db.lock.r", func() bool {
+		if db.lock.TryRLock() {
+			db.lock.RUnlock()
+			return true
+		}
+		return false
+	})
 	db.lock.RLock()
 	memtableSyncError := db.mt.SyncWAL()
 	db.lock.RUnlock()
@@ -723,6 +730,13 @@ func (db *DB) Sync() error {
 
 // getMemtables returns the current memtables and get references.
 func (db *DB) getMemTables() ([]*memTable, func()) {
+	vhook.WaitLock("db.lock.r", func() bool {
+		if db.lock.TryRLock() {
+			db.lock.RUnlock()
+			return true
+		}
+		return false
+	})
 	db.lock.RLock()
 	defer db.lock.RUnlock()
 
@@ -1043,6 +1057,13 @@ var errNoRoom = errors.New("No room for write")
 // ensureRoomForWrite is always called serially.
 func (db *DB) ensureRoomForWrite() error {
 	var err error
+	vhook.WaitLock("db.lock.w", func() bool {
+		if db.lock.TryLock() {
+			db.lock.Unlock()
+			return true
+		}
+		return false
+	})
 	db.lock.Lock()
 	defer db.lock.Unlock()
 
@@ -1758,6 +1779,8 @@ func (db *DB) dropAll() (func(), error) {
 	// Block all foreign interactions with memory tables.
 	db.lock.Lock()
 	defer db.lock.Unlock()
+	vhook.NoYield(1)
+	defer vhook.NoYield(-1)
 
 	// Remove inmemory tables. Calling DecrRef for safety. Not sure if they're absolutely needed.
 	db.mt.DecrRef()
@@ -1822,6 +1845,8 @@ func (db *DB) DropPrefix(prefixes ...[]byte) error {
 	// Block all foreign interactions with memory tables.
 	db.lock.Lock()
 	defer db.lock.Unlock()
+	vhook.NoYield(1)
+	defer vhook.NoYield(-1)
 
 	db.imm = append(db.imm, db.mt)
 	for _, memtable := range db.imm {
